@@ -249,6 +249,9 @@ func report(g *Gen, prop, tier, verif string, results []*funcResult, wall, loadS
 				}
 				continue
 			}
+			if prop != "" && !hasProp(o.Props, prop) {
+				continue
+			}
 			nobl++
 			solverSecs += o.Secs
 			if o.Result == "unsat" {
